@@ -156,6 +156,30 @@ func wordExpr(v, m ssa.Value) (shift uint, mask uint64, ok bool) {
 					return uint(k), ^uint64(0), true
 				}
 			}
+		case token.AND_NOT, token.AND:
+			// m &^ (2^k-1)  or  m & ^(2^k-1): the word with its k low bits cleared, i.e. (m>>k)<<k;
+			// reported with mask = low-bit mask so that predSet can scale the constant
+			if stripSameWidth(b.X) == m {
+				if c, okc := constUint(b.Y); okc {
+					low := c
+					if b.Op == token.AND {
+						w := widthOf(m.Type())
+						full := ^uint64(0)
+						if w < 64 {
+							full = (uint64(1) << w) - 1
+						}
+						low = ^c & full
+					}
+					// low must be 2^k - 1
+					if low != 0 && low&(low+1) == 0 {
+						k := uint(0)
+						for x := low; x != 0; x >>= 1 {
+							k++
+						}
+						return k, low, true
+					}
+				}
+			}
 		}
 	}
 	return 0, 0, false
@@ -216,10 +240,24 @@ func predSet(cond ssa.Value, m ssa.Value, width uint) (vset, bool) {
 				return nil, false
 			}
 		}
-		k, _, _ := wordExpr(l, m)
+		k, mask, _ := wordExpr(l, m)
 		c, okc := constUint(r)
 		if !okc {
 			return nil, false
+		}
+		if mask != ^uint64(0) {
+			// l is (m>>k)<<k: only (in)equality with a constant is decided
+			if op != token.EQL && op != token.NEQ {
+				return nil, false
+			}
+			if c&mask != 0 {
+				// never equal
+				if op == token.EQL {
+					return nil, true
+				}
+				return fullSet(width), true
+			}
+			c >>= k
 		}
 		max := fullSet(width)[0].hi
 		top := max >> k // maximal value of m>>k
